@@ -24,7 +24,10 @@ func (e *Engine) readOnlyMutationScenario(salt uint64) error {
 
 	st := NewStorage(NewLedger())
 	addr := addrOf(1)
-	cmp, hip := e.CB.Compare, e.CB.HashInput
+	// (plain hash inputs: under the colliding hash-input provider a standalone child map of a few hundred keys would
+	// run into the collision limit)
+	plain := &Callbacks{}
+	cmp, hip := plain.Compare, plain.HashInput
 	n := 2
 	if big {
 		n = int(e.Cfg.Slab)/24 + 4
